@@ -140,6 +140,20 @@ func singleJoiningSlash(a, b string) string {
 	return a + b
 }
 
+// trimEncodedPrefix removes from the encoded path raw the leading part that
+// spells prefix, however the client wrote it (/%61pi for /api). RawPath has
+// to lose exactly what strings.TrimPrefix took from Path: otherwise it is no
+// longer an encoding of Path, net/url falls back to re-encoding Path and
+// every escape the client sent in the remainder (%2F!) is gone.
+func trimEncodedPrefix(raw, prefix string) string {
+	for i := len(prefix); i <= len(raw); i++ {
+		if p, err := url.PathUnescape(raw[:i]); err == nil && p == prefix {
+			return raw[i:]
+		}
+	}
+	return raw
+}
+
 // NewSingleHostReverseProxy returns a new ReverseProxy that rewrites
 // URLs to the scheme, host, and base path provided in target. If the
 // target's path is "/base" and the incoming request was for "/dir",
@@ -167,12 +181,13 @@ func NewSingleHostReverseProxy(target *url.URL, without string, keepalive int, t
 
 		// remove the `without` prefix
 		if without != "" {
+			trimmed := strings.HasPrefix(req.URL.Path, without)
 			req.URL.Path = strings.TrimPrefix(req.URL.Path, without)
 			if req.URL.Opaque != "" {
 				req.URL.Opaque = strings.TrimPrefix(req.URL.Opaque, without)
 			}
-			if req.URL.RawPath != "" {
-				req.URL.RawPath = strings.TrimPrefix(req.URL.RawPath, without)
+			if req.URL.RawPath != "" && trimmed {
+				req.URL.RawPath = trimEncodedPrefix(req.URL.RawPath, without)
 			}
 		}
 
